@@ -242,6 +242,11 @@ def task_rebinding(args):
                 cases.append(("ok", lab + ":file-then-module", first + "\nlet m = module {} => { %s };\nlet r = m{};\n" % second))
                 cases.append(("ok", lab + ":module-then-file", "let m = module {} => { %s };\nlet r = m{};\n" % first + second + "\n"))
                 cases.append(("ok", lab + ":two-modules", "let m1 = module {} => { %s };\nlet m2 = module {} => { %s };\nlet r1 = m1{};\nlet r2 = m2{};\n" % (first, second)))
+        cases.append(("fail", "param-then-param:duplicate-parameter", "let f = func (%s, %s) => 1;\nlet r = f(1, 2);\n" % (n, n)))
+        cases.append(("fail", "param-then-param:duplicate-parameter-apart", "let f = func (%s, other, %s) => other;\nlet r = f(1, 2, 3);\n" % (n, n)))
+        cases.append(("fail", "param-then-param:duplicate-parameter-uncalled", "let f = func (%s, %s) => 1;\n" % (n, n)))
+        cases.append(("fail", "param-then-param:duplicate-callback-parameter", "let r = reduce(func (%s, %s) => 1, 0, [1]);\n" % (n, n)))
+        cases.append(("ok", "param-then-param:same-name-in-two-functions", "let f = func (%s) => 1;\nlet g = func (%s) => 2;\nlet r = f(1) + g(2);\n" % (n, n)))
         cases.append(("ok", "let-then-constraint:distinct-names", "let %s = 1;\nconstraint %s2 = 1 | 2;\nlet v :: %s2 = %s;\n" % (n, n, n, n)))
     import tempfile
     d = os.path.join(core.SCRATCH, "c10r-%d" % os.getpid())
